@@ -659,7 +659,7 @@ func c05Worker(args []string) int {
 	for i, in := range inputs {
 		fmt.Fprintf(prog, "%d\n", i) // log before executing
 		area, canvas := declaredArea(in)
-		b := time.Duration(scale) * (20*time.Second + time.Duration(2*(uint64(len(in))+area+8*canvas))*time.Microsecond)
+		b := time.Duration(scale) * (10*time.Second + time.Duration(2*(uint64(len(in))+area+8*canvas))*time.Microsecond)
 		budget.Store(int64(b))
 		started.Store(time.Now().UnixNano())
 		cur.Store(int64(i))
@@ -699,7 +699,7 @@ func runC05(c *ev.Ctx) {
 		raw = append(raw, s.Data)
 	}
 	c.Extra("seed_files", len(seeds))
-	total := c.N(48000, 3000000)
+	total := c.N(64000, 5000000)
 	if v := getenvInt("VERIF_C05_N", 0); v > 0 {
 		total = v
 	}
@@ -860,15 +860,18 @@ func c05RunBatch(c *ev.Ctx, exe, dir string, b int, inputs []c05Input, scale int
 		cs := ev.Case{Idx: base + last, Desc: culprit.desc}
 		if r, ok := results[last]; ok && r.Class == "timeout" || strings.Contains(string(prog), "TIMEOUT") {
 			// stage 2: three isolated re-runs with a 10x budget; only unanimous timeouts are a verdict
-			if scale == 1 {
+			if scale == 1 && c.Counter("hang_investigations") >= 4 {
+				c.Count("hang_candidates_not_investigated", 1)
+			} else if scale == 1 {
+				c.Count("hang_investigations", 1)
 				slow := 0
 				for k := 0; k < 3; k++ {
-					if c05Isolated(exe, dir, culprit.data, 10) == "timeout" {
+					if c05Isolated(exe, dir, culprit.data, 5) == "timeout" {
 						slow++
 					}
 				}
 				if slow == 3 {
-					c.Violate(cs, "hang", nil, "does not return within 10x the generous budget in 3 isolated re-runs", map[string]string{"file": b64(culprit.data)})
+					c.Violate(cs, "hang", nil, "does not return within 5x the generous budget (50 s + 10 us per input byte and declared pixel) in 3 isolated re-runs", map[string]string{"file": b64(culprit.data)})
 				} else {
 					c.Inconclusive("watchdog-fired-once-not-reproduced")
 				}
